@@ -48,7 +48,7 @@ def monitor_cfg(ctx, sys_, kd):
     return "T_Residency", cfg
 
 
-def judge_trace(ctx, sys_, trace, source, kd, classify=True, max_events=60000):
+def judge_trace(ctx, sys_, trace, source, kd, classify=True, max_events=40000):
     mod, cfg = monitor_cfg(ctx, sys_, kd)
     v = lib.judge(ctx, mod, cfg, trace, max_events=max_events)
     ctx.stage("judge", source=source, events=v["events"], violations=len(v["violations"]),
@@ -62,7 +62,9 @@ def op_census(ctx, trace):
     """(operation, result) pairs seen on the real code - reported in evidence, decides nothing."""
     cen = ctx.cov.setdefault("op_result_census", {})
     with open(trace) as f:
-        for line in f:
+        for i, line in enumerate(f):
+            if i >= 300000:          # a census of the first 300k events of a trace is enough
+                break
             if lib.is_new(line):
                 continue
             m = OP_RE.search(line)     # "op" and "res" are top-level keys behind the (nested) "obs" object
